@@ -78,3 +78,17 @@ impl Client {
         StreamBuilder::new(self.clone(), RequestorWantsRequestEncoder::new(endpoint))
     }
 }
+
+#[cfg(feature = "verif-hooks")]
+impl Client {
+    /// Fault injection for the verification harness: closes the client's current QUIC
+    /// connection, as a network failure would. Compiled only with the `verif-hooks` feature.
+    #[doc(hidden)]
+    pub async fn __verif_close_connection(&self) {
+        let connection = self.connection.lock().await;
+        connection.conn().close(
+            quinn::VarInt::from_u32(0),
+            b"verification hook: connection cut",
+        );
+    }
+}
